@@ -110,4 +110,24 @@ mod verif_supports {
         assert!(!v.is_backend("j"));
         assert!(!v.is_backend(""));
     }
+
+    #[kani::proof]
+    #[kani::unwind(8)]
+    fn backend_names_exact_symbolic() {
+        // every ASCII string of length <= 4 against backend "js" with alias "node": accepted iff it IS one of the two names
+        let mut v = BasicAttributeValidator::new("js");
+        v.other_backend_names.push(String::from("node"));
+        let bytes: [u8; 4] = kani::any();
+        let len: usize = kani::any();
+        kani::assume(len <= 4);
+        kani::assume(bytes[0] < 128 && bytes[1] < 128 && bytes[2] < 128 && bytes[3] < 128);
+        let s: &str = unsafe { core::str::from_utf8_unchecked(&bytes[..len]) };
+        let is_js = len == 2 && bytes[0] == b'j' && bytes[1] == b's';
+        let is_node = len == 4 && bytes[0] == b'n' && bytes[1] == b'o' && bytes[2] == b'd' && bytes[3] == b'e';
+        assert!(v.is_backend(s) == (is_js || is_node), "a backend atom is true exactly for the running backend's own names");
+        kani::cover!(is_js);
+        kani::cover!(is_node);
+        kani::cover!(len == 3 && bytes[0] == b'j' && bytes[1] == b's');
+        kani::cover!(len == 1 && bytes[0] == b'j');
+    }
 }
